@@ -143,6 +143,17 @@ fn build_pipeline(v: &Value) -> Pipeline {
     for i in 0..n {
         let mut e = if fail_at == i as i64 {
             Exec::cmd(format!("/no/such/stage-program-{}", i))
+        } else if v["stream"].as_bool().unwrap_or(false) {
+            // streaming stages: the first one generates a lot of data, the others copy it through as they read
+            // (back-pressure like `yes | cat | ...`)
+            if i == 0 {
+                Exec::cmd(vchild()).arg("@gen").arg(v["tags"][i].as_str().unwrap()).arg("400000")
+            } else if i == n - 1 && v["head"].as_bool().unwrap_or(false) {
+                // the last command exits at once (like `head -n0`): everything upstream must be released by SIGPIPE
+                Exec::cmd(vchild()).arg("@quit").arg(v["tags"][i].as_str().unwrap())
+            } else {
+                Exec::cmd(vchild()).arg("@cat").arg(v["tags"][i].as_str().unwrap())
+            }
         } else {
             Exec::cmd(vchild()).arg("@stage").arg(v["tags"][i].as_str().unwrap())
                 .arg(v["codes"][i].as_u64().unwrap().to_string()).arg(v["elines"][i].as_str().unwrap())
@@ -248,11 +259,14 @@ fn run_pipeline(v: &Value, out: &mut Vec<String>) {
     let mut errout: Option<Vec<u8>> = None;
     let mut status: Option<ExitStatus> = None;
     let mut result: Result<(), PopenError> = Ok(());
+    let mut pheld: Option<Vec<Value>> = None;
     slog::resume();
     let r = catch_unwind(AssertUnwindSafe(|| -> Result<(), PopenError> {
         match term {
             "popen" => {
                 let mut v = p.popen()?;
+                // what the parent holds right after the pipeline has been started
+                pheld = Some(fd_table());
                 if let Some(mut w) = v[0].stdin.take() {
                     let _ = w.write_all(&data);
                 }
@@ -305,6 +319,7 @@ fn run_pipeline(v: &Value, out: &mut Vec<String>) {
         result = rr;
     }
     let (_forked, pids) = sys_events(out);
+    out.push(json!({"e":"pheld","have":pheld.is_some(),"fds":pheld.unwrap_or_default()}).to_string());
     if sout == "file" {
         output = fs::read(&outpath).ok();
     }
@@ -434,7 +449,7 @@ fn run_handle(v: &Value, out: &mut Vec<String>) {
             "pl_stream_stdout_errpipe" => {
                 // a stage with its own piped stderr inside a pipeline read through the read adapter
                 let first = mk(&script).stderr(Redirection::Pipe);
-                let second = mk(&["R".to_string(), "x0".to_string()]);
+                let second = Exec::cmd(vchild()).arg("@cat").arg("copy");
                 let mut r = (first | second).stream_stdout()?;
                 rd(&mut r);
                 slog::rec(slog::K_MARK, 1, 0, 0, 0, 0, b"drop");
